@@ -32,6 +32,14 @@ class Result:
         return not self.fails
 
 
+def annotate(case):
+    try:
+        from . import common
+        common.annotate(case)
+    except Exception:
+        pass
+
+
 def canon(case):
     return json.dumps(case, sort_keys=True, default=_json_default)
 
@@ -67,6 +75,8 @@ def known_match(known, prop_id, sig):
         if k['signature'] == sig:
             return k
         if k['signature'].endswith('*') and sig.startswith(k['signature'][:-1]):
+            return k
+        if k['signature'].startswith('*') and sig.endswith(k['signature'][1:]):
             return k
     return None
 
@@ -113,6 +123,7 @@ def _worker(args):
             return
         case = json.loads(canon(case))
         try:
+            annotate(case)
             res = mod.check(case)
         except Exception:
             res = Result(fails=[('harness-exception', traceback.format_exc()[-1500:])])
@@ -177,7 +188,9 @@ def run_replay(prop_id, path):
     case = json.load(open(path))
     if isinstance(case, dict) and 'case' in case and 'property' in case:
         case = case['case']
-    res = mod.check(json.loads(canon(case)))
+    case = json.loads(canon(case))
+    annotate(case)
+    res = mod.check(case)
     return case, res
 
 
